@@ -10,6 +10,14 @@ Mirrors, at the granularity "one outermost backend command plus the task-local c
 * cashews/backends/transaction.py  `TransactionBackend.set (also with exist=)/exists/incr/get/delete/expire/commit/rollback`,
   `LockTransactionBackend._lock_updates/_unlock_updates` (and its `set/incr/delete/expire`: lock first).
 
+Every way a block can end is modelled: the body runs to its end (commit), raises an `Exception` (`Cmd.raise false`), raises
+a `BaseException` that is not an `Exception` (`Cmd.raise true`), gets `LockedError` out of `_lock_updates`, or the task
+is CANCELLED (`Act.cancel`: `asyncio.CancelledError` raised at the suspension point of the body the task is parked at —
+before a backend command, while waiting for a lock, in a sleep).  `__aexit__` decides with `if not exc_tb`: all of them
+but the first roll back.  Inside a body the program may call `tx.commit()` / `tx.rollback()` on the `Transaction` object
+(`Cmd.commit` / `Cmd.rollback`): the buffered writes are flushed (resp. dropped), `_unlock_updates` releases every lock
+(`self._locks = set()`), and the body goes on with an empty buffer and no locks: its later writes acquire their locks again.
+
 Time is `Nat` in units u = 1/40 s: one harness tick (1/8 s) = 5u, the lock retry step (0.1 s) = 4u.
 Values are integers (the overlay semantics for other values is C03/C04's business).  TTLs are not modelled:
 `expire k` is what it does to *values* — a read-modify-write that buffers the store's current value of `k`
@@ -38,15 +46,20 @@ inductive Cmd where
   | expire (k : Nat)           -- `cache.expire(k, ttl)`: re-time the key (the TTL itself is not modelled)
   | setx (k : Nat) (v : Int) (e : Bool)   -- `cache.set(k, v, exist=e)`: only if present (`e`) / only if absent; result 1 / 0
   | sleep (d : Nat)            -- `await asyncio.sleep(d/8)`: a suspension that is not a backend command
-  | raise
+  | raise (base : Bool)        -- the body raises: an `Exception` subclass / (`base`) a `BaseException` subclass that is not an `Exception`
   | nestIn (f : Form)
   | nestOut
+  | commit                     -- `await tx.commit()` on the `Transaction` that `async with cache.transaction() as tx` returned
+  | rollback                   -- `await tx.rollback()`
   deriving DecidableEq, Repr
 
+/-- what the caller of the block gets — all the ways a block can end -/
 inductive Outcome where
   | returned (rs : List (Option Int))   -- the body's results (of its `incr`s and `get`s, in order)
-  | raisedBody                          -- the body's own exception
+  | raisedBody                          -- the body's own exception, an `Exception`
   | raisedLocked                        -- `LockedError` out of `_lock_updates`
+  | raisedBase                          -- the body's own exception, a `BaseException` that is not an `Exception`
+  | cancelled                           -- `asyncio.CancelledError`: the task was cancelled while suspended inside the body
   deriving DecidableEq, Repr
 
 /-- `_get_lock_key`: `some k` = ":tx_lock:<k>", `none` = ":serializable:lock" -/
@@ -79,11 +92,21 @@ inductive Mut where
 
 abbrev Store := Nat → Option Int
 
+/-- the backend commands of a commit of the write-set (`ov`, `del`):
+`if self._to_delete: delete_many(*_to_delete)`, then `set_many` (one TTL group here) if anything is buffered -/
+def commitMutsOf (ov : AL) (del : List Nat) : List Mut :=
+  (if del ≠ [] then [Mut.delMany del] else []) ++ (if ov ≠ [] then [Mut.setMany ov] else [])
+
 def Mut.apply (s : Store) : Mut → Store
   | .delMany ks => fun k => if k ∈ ks then none else s k
   | .setMany kvs => fun k => match AL.get kvs k with | some v => some v | none => s k
   | .directSet k v => fun k' => if k' = k then some v else s k'
   | .directDel k => fun k' => if k' = k then none else s k'
+
+/-- sum of the increments of key `k` in a list of increments `(key, amount)` -/
+def isum (k : Nat) : List (Nat × Int) → Int
+  | [] => 0
+  | (k', n) :: r => (if k' = k then n else 0) + isum k r
 
 /-! ### tasks -/
 
@@ -102,6 +125,9 @@ inductive PC where
   | commitSet                                     -- parked before `set_many`
   | unlocking (ls : List LockKey) (o : Outcome)   -- parked before `unlock` of the head of `ls`
   | finished (o : Outcome)
+  | midDel                                        -- parked before `delete_many` of an explicit `tx.commit()`; the body goes on afterwards
+  | midSet                                        -- parked before `set_many` of an explicit `tx.commit()`
+  | midUnlock (ls : List LockKey)                 -- parked before `unlock` of the head of `ls`, in `_unlock_updates` of an explicit commit / rollback
   deriving DecidableEq, Repr
 
 structure Task where
@@ -119,6 +145,9 @@ structure Task where
   results : List (Option Int) := []
   enterAt : Nat := 0
   reads : List (Option Int) := []   -- ghost: what its backend reads returned, in order
+  cmuts : List Mut := []            -- ghost: the store mutations of its explicit `tx.commit()`s so far
+  pend : List (Nat × Int) := []     -- ghost: the increments `(k, n)` it issued since its last commit / rollback (buffered, not in the store)
+  cinc : List (Nat × Int) := []     -- ghost: its increments that a commit has made durable
   deriving Repr
 
 /-- `wait = timeout; while wait > 0: wait -= 0.1 …` — number of `set_lock` attempts -/
@@ -139,13 +168,16 @@ def holds (t : Task) (k : Nat) : Bool :=
 
 /-- rollback + `_unlock_updates` after an exception in the body (`__aexit__` with `exc_tb`) -/
 def abort (t : Task) (o : Outcome) : Task :=
-  if t.locks = [] then { t with ov := [], del := [], prog := [], pc := .finished o }
-  else { t with ov := [], del := [], prog := [], pc := .unlocking t.locks o, locks := [] }
+  if t.locks = [] then { t with ov := [], del := [], pend := [], prog := [], pc := .finished o }
+  else { t with ov := [], del := [], pend := [], prog := [], pc := .unlocking t.locks o, locks := [] }
 
-/-- `_clear_local_storage()` then `_unlock_updates()` at the end of a commit -/
+/-- `_clear_local_storage()` then `_unlock_updates()` at the end of the commit that `__aexit__` runs -/
 def afterCommit (t : Task) : Task :=
-  if t.locks = [] then { t with ov := [], del := [], pc := .finished (.returned t.results) }
-  else { t with ov := [], del := [], pc := .unlocking t.locks (.returned t.results), locks := [] }
+  if t.locks = [] then
+    { t with ov := [], del := [], cinc := t.cinc ++ t.pend, pend := [], pc := .finished (.returned t.results) }
+  else
+    { t with ov := [], del := [], cinc := t.cinc ++ t.pend, pend := [],
+             pc := .unlocking t.locks (.returned t.results), locks := [] }
 
 /-- the body ended normally: `__aexit__` without exception = commit
 (`if self._to_delete: delete_many`, then `set_many` per expire group — one group, no TTLs here) -/
@@ -175,10 +207,11 @@ def localCmd (t : Task) : Cmd → Option Task
     -- `_to_delete.discard(key); return local.incr(key, value)`
     if t.ctx && holds t k then
       match t.ov.get k with
-      | some v => some { t with ov := t.ov.put k (v + n), results := t.results ++ [some (v + n)] }
+      | some v => some { t with ov := t.ov.put k (v + n), results := t.results ++ [some (v + n)], pend := t.pend ++ [(k, n)] }
       | none =>
         if k ∈ t.del then
-          some { t with ov := t.ov.put k n, del := t.del.filter (· ≠ k), results := t.results ++ [some n] }
+          some { t with ov := t.ov.put k n, del := t.del.filter (· ≠ k), results := t.results ++ [some n],
+                        pend := t.pend ++ [(k, n)] }
         else none
     else none
   | .get k =>
@@ -212,9 +245,20 @@ def localCmd (t : Task) : Cmd → Option Task
       | none => if k ∈ t.del then some (setxApply t k v e false) else none
     else none
   | .sleep _ => none
-  | .raise => none
+  | .raise _ => none
   | .nestIn _ => some { t with depth := t.depth + 1 }   -- `__aenter__` with a current transaction: `_inner = True`
   | .nestOut => some { t with depth := t.depth - 1 }    -- `__aexit__` of an inner block: nothing
+  | .commit =>
+    -- `Transaction.commit()` → `LockTransactionBackend.commit()`: `try: super().commit() finally: _unlock_updates()`;
+    -- with nothing buffered and no lock held no backend command is issued
+    if t.ctx then
+      if t.del = [] ∧ t.ov = [] ∧ t.locks = [] then some { t with cinc := t.cinc ++ t.pend, pend := [] } else none
+    else some t                                         -- no `Transaction` object outside a block: not a program
+  | .rollback =>
+    -- `Transaction.rollback()` → `_clear_local_storage()`, then `_unlock_updates()`
+    if t.ctx then
+      if t.locks = [] then some { t with ov := [], del := [], pend := [] } else none
+    else some t
 
 /-- `expire` of a key the transaction has neither written nor deleted, after `backend.get(key, _empty)` returned
 `cur`: `if value is _empty: return` / `local.set(key, value, expire=timeout)` — what the backend holds is buffered -/
@@ -233,7 +277,7 @@ def lockOrFail (t : Task) (k : Nat) (prog : List Cmd) : Task :=
 def park (now : Nat) (t : Task) (c : Cmd) (rest : List Cmd) : Task :=
   match c with
   | .sleep d => { t with prog := rest, pc := .bodySleep (now + 5 * d) }
-  | .raise => abort t .raisedBody
+  | .raise b => abort t (if b then .raisedBase else .raisedBody)
   | .set k _ => if t.ctx then lockOrFail t k (c :: rest) else { t with prog := rest, pc := .direct c }
   | .delete k => if t.ctx then lockOrFail t k (c :: rest) else { t with prog := rest, pc := .direct c }
   | .incr k n =>
@@ -251,6 +295,14 @@ def park (now : Nat) (t : Task) (c : Cmd) (rest : List Cmd) : Task :=
     else { t with prog := rest, pc := .direct c }
   | .nestIn _ => t
   | .nestOut => t
+  | .commit =>
+    -- `if self._to_delete: await backend.delete_many(...)`, `await backend.set_many(...)`, `finally: _unlock_updates()`
+    if t.del ≠ [] then { t with prog := rest, pc := .midDel }
+    else if t.ov ≠ [] then { t with prog := rest, pc := .midSet }
+    else { t with prog := rest, cinc := t.cinc ++ t.pend, pend := [], pc := .midUnlock t.locks, locks := [] }
+  | .rollback =>
+    -- `_clear_local_storage()`; `locks = self._locks; self._locks = set(); gather(unlock …)`
+    { t with prog := rest, ov := [], del := [], pend := [], pc := .midUnlock t.locks, locks := [] }
 
 /-- run task-local code until the next backend command, sleep, or the end -/
 def settle (now : Nat) : List Cmd → Task → Task
@@ -259,6 +311,34 @@ def settle (now : Nat) : List Cmd → Task → Task
     match localCmd t c with
     | some t' => settle now rest t'
     | none => park now t c rest
+
+/-- an explicit `tx.commit()` has issued its backend commands: `_clear_local_storage()`, then `_unlock_updates()`
+(`locks = self._locks; self._locks = set()`); without locks the body goes straight on -/
+def afterMid (now : Nat) (t : Task) : Task :=
+  if t.locks = [] then
+    settle now t.prog { t with cmuts := t.cmuts ++ commitMutsOf t.ov t.del, ov := [], del := [],
+                               cinc := t.cinc ++ t.pend, pend := [] }
+  else
+    { t with cmuts := t.cmuts ++ commitMutsOf t.ov t.del, ov := [], del := [], cinc := t.cinc ++ t.pend, pend := [],
+             pc := .midUnlock t.locks, locks := [] }
+
+/-- `task.cancel()` reaches the task: `asyncio.CancelledError` is raised at the await it is suspended at.  Inside the
+body of its block (parked before a backend command of the body, before / between `set_lock` attempts, in a sleep) the
+exception propagates out of the body, `__aexit__` sees `exc_tb` and rolls back: exactly `abort`.  A task outside any block
+simply ends.  (A task that has not started, has finished, or is inside a commit / an unlock — `__aexit__` or an explicit
+`tx.commit()` already running — is not cancelled here: cancelling a *commit* half way is not a question of this
+property; the harness does not do it.) -/
+def cancelTask (t : Task) : Task :=
+  match t.pc with
+  | .lockTry _ _ => abort t .cancelled
+  | .lockSleep _ _ _ => abort t .cancelled
+  | .seedGet _ _ => abort t .cancelled
+  | .readGet _ => abort t .cancelled
+  | .expGet _ => abort t .cancelled
+  | .existsGet _ _ _ => abort t .cancelled
+  | .bodySleep _ => abort t .cancelled
+  | .direct _ => abort t .cancelled
+  | _ => t
 
 /-! ### the world -/
 
@@ -286,6 +366,7 @@ def unlockOne (lk : Locks) (l : LockKey) (tid now : Nat) : Locks :=
 inductive Act where
   | run (tid : Nat)
   | adv (d : Nat)
+  | cancel (tid : Nat)       -- somebody calls `task.cancel()` on task `tid`
   deriving DecidableEq, Repr
 
 /-- what one step of one task does: new shared state, new task state, store mutations made -/
@@ -343,7 +424,7 @@ def taskStep (tid now : Nat) (store : Store) (lock : Locks) (t : Task) : Eff :=
     -- `current = await self._backend.get(key, 0); local.set(key, current); return local.incr(key, value)`
     let cur := (store k).getD 0
     let t1 := { t with ov := t.ov.put k (cur + n), results := t.results ++ [some (cur + n)],
-                       reads := t.reads ++ [store k] }
+                       reads := t.reads ++ [store k], pend := t.pend ++ [(k, n)] }
     { store := store, lock := lock, task := settle now t1.prog t1 }
   | .readGet k =>
     let t1 := { t with results := t.results ++ [store k], reads := t.reads ++ [store k] }
@@ -372,6 +453,19 @@ def taskStep (tid now : Nat) (store : Store) (lock : Locks) (t : Task) : Eff :=
       { store := store, lock := unlockOne lock l tid now,
         task := { t with pc := if rest = [] then .finished o else .unlocking rest o } }
   | .finished _ => { store := store, lock := lock, task := t }
+  | .midDel =>
+    -- `await self._backend.delete_many(*self._to_delete)` of an explicit commit
+    { store := (Mut.delMany t.del).apply store, lock := lock,
+      task := if t.ov ≠ [] then { t with pc := .midSet } else afterMid now t, muts := [.delMany t.del] }
+  | .midSet =>
+    { store := (Mut.setMany t.ov).apply store, lock := lock, task := afterMid now t, muts := [.setMany t.ov] }
+  | .midUnlock ls =>
+    -- `await asyncio.gather(*[self._backend.unlock(key, self._lock_id) for key in locks])`, then the body goes on
+    match ls with
+    | [] => { store := store, lock := lock, task := settle now t.prog t }
+    | l :: rest =>
+      { store := store, lock := unlockOne lock l tid now,
+        task := if rest = [] then settle now t.prog t else { t with pc := .midUnlock rest } }
 
 def World.runTask (w : World) (tid : Nat) : World :=
   let e := taskStep tid w.now w.store w.lock (w.tasks tid)
@@ -394,6 +488,7 @@ def wake (now : Nat) (t : Task) : Task :=
 def World.step (w : World) : Act → World
   | .run tid => w.runTask tid
   | .adv d => { w with now := w.now + d, tasks := fun i => wake (w.now + d) (w.tasks i) }
+  | .cancel tid => { w with tasks := fun i => if i = tid then cancelTask (w.tasks i) else w.tasks i }
 
 def World.run (w : World) (sched : List Act) : World := sched.foldl World.step w
 
